@@ -161,6 +161,49 @@ def rainflow(peaks, getoffsets=False, use_pandas=True):
     return rf
 
 
+def _findap_sequential(y, stol):
+    """
+    Pick alternating peaks by comparing each point with the last
+    accepted value. Plain Python version of the loop in the numba
+    version of :func:`findap`; used by the numpy version when `y` has
+    non-zero steps that are within the tolerance.
+    """
+    PV = np.zeros(y.size, bool)
+    PV[0] = True
+    prv = y[0]
+    i = 1
+    while i < y.size:
+        if abs(y[i] - prv) > stol:
+            break
+        i += 1
+
+    if i == y.size:
+        return PV
+
+    j = i
+    cur = y[j]
+    mountain = cur > prv
+    nxt = cur
+    for i in range(i + 1, y.size):
+        nxt = y[i]
+        if abs(nxt - cur) > stol:
+            if mountain:
+                if nxt < cur:
+                    PV[j] = True
+                    mountain = False
+            elif nxt > cur:
+                PV[j] = True
+                mountain = True
+            cur = nxt
+            j = i
+
+    if abs(nxt - y[-2]) > stol:
+        PV[-1] = True
+    else:
+        PV[j] = True
+    return PV
+
+
 if not HAVE_NUMBA:
 
     def findap(y, tol=1e-6):
@@ -215,6 +258,16 @@ if not HAVE_NUMBA:
 
         if y.size == 1:
             return np.array([True])
+
+        if y.size > 2:
+            # `find_unique` compares each point with its predecessor,
+            # which is the same as comparing with the last accepted
+            # value (as the numba version does) unless there are
+            # non-zero steps within the tolerance:
+            dy = np.abs(np.diff(y))
+            stol = np.abs(tol * dy.max())
+            if ((dy > 0) & (dy <= stol)).any():
+                return _findap_sequential(y, stol)
 
         # first, find unique values (1st of series is unique)
         u = locate.find_unique(y, tol)
